@@ -157,7 +157,10 @@ def adversarial_ir(r, n=None):
 def adversarial_module(r, scratch):
     """module with module-level side effects, payload defaults, payload annotations and hostile docstrings"""
     lines = ["import canary_mod", "open('SENTINEL_toplevel', 'w').close()", "__import__('os').system('touch SENTINEL_mod_system')",
-             "from typing import Optional, List", ""]
+             "from typing import Optional, List",
+             # dotted imports of an importable package: to *locate* `canary_pkg.modes` an import system runs `canary_pkg`
+             r.choice(("from canary_pkg.modes import Mode", "import canary_pkg.modes", "import canary_pkg.modes as cm",
+                       "from canary_pkg import modes", "from canary_pkg.deep.leaf import Leaf")), ""]
     style = r.choice(STYLES)
 
     def docstring(names, indent):
@@ -207,6 +210,12 @@ def build(i, r, scratch):
     if not os.path.exists(canary):
         write(scratch, "canary_mod.py", "open(%r, 'w').close()\n\n\nclass Hook(object):\n    pass\n\n\ndef run():\n    return 1\n\n\n"
                                         "x = 1\n" % os.path.join(scratch, "SENTINEL_canary_imported"))
+    if not os.path.isdir(os.path.join(scratch, "canary_pkg")):
+        os.makedirs(os.path.join(scratch, "canary_pkg", "deep"))
+        for rel, what in (("__init__.py", "pkg"), ("modes.py", "modes"), (os.path.join("deep", "__init__.py"), "deep"),
+                          (os.path.join("deep", "leaf.py"), "leaf")):
+            write(scratch, os.path.join("canary_pkg", rel), "open(%r, 'w').close()\n\n\nclass Mode(object):\n    pass\n\n\n"
+                  "class Leaf(object):\n    pass\n" % os.path.join(scratch, "SENTINEL_canary_pkg_%s_imported" % what))
     kind = KINDS[i % len(KINDS)]
     if kind == "docstring_parse":
         style = r.choice(STYLES)
